@@ -63,7 +63,10 @@ def cases(tier, seed):
     # grouped records of different composition through one writer (they all share one Python class)
     GA = {"group": "x/g", "members": [A, rs("x/m", [["varint", "port"]], ["80"])]}
     GB = {"group": "x/g", "members": [rs("x/h", [["string", "host"]], ["'h'"]), B]}
-    gshapes = {"GA": GA, "GB": GB, "A": A}
+    # equal flat descriptors (group name, field list) built from different member layouts
+    GH = {"group": "x/g2", "members": [rs("x/h", [["string", "host"]], ["'h1'"]), rs("x/m", [["varint", "port"]], ["80"])]}
+    GHP = {"group": "x/g2", "members": [rs("x/hp", [["string", "host"], ["varint", "port"]], ["'h2'", "443"])]}
+    gshapes = {"GA": GA, "GB": GB, "A": A, "GH": GH, "GHP": GHP}
     for k in (1, 2, 3):
         for seq in itertools.product(gshapes, repeat=k):
             if any(s.startswith("G") for s in seq):
@@ -151,11 +154,15 @@ def csv_check(records, fields, exclude, lt, case, viol):
         # expected rows
         want = []
         prev = None
+        header = None
         for i, r in enumerate(records):
             names = [k for k in (fields if fields else slot_names(r)) if k in slot_names(r) and not (exclude and k in exclude)]
             if prev is None or prev != (r._desc.name, tuple(r._desc.get_field_tuples())):
                 want.append(list(names))
+                header = list(names)
                 prev = (r._desc.name, tuple(r._desc.get_field_tuples()))
+            elif header is not None and sorted(header) == sorted(names):
+                names = header  # same record type, another member layout (grouped records): the cells stand under the header's columns
             if i in xf and i not in accepted_x:
                 continue  # its header may stand (the type was announced), its row may not
             want.append([textform(getattr(r, k)) for k in names])
